@@ -14,7 +14,7 @@ open Node Raft Raft.CC RaftProps.C02 RaftProps.C05 Snap
 variable {cfg : JointConfig} {c0 : Nat} {h : List Sys}
 
 /-- **the components for a node that does not step** -/
-theorem sm_other (H : Hyp2 cfg c0 h) {n : Nat} {a b : Sys} (ha : h[n]? = some a)
+theorem sm_other (H : Hyp2w cfg c0 h) {n : Nat} {a b : Sys} (ha : h[n]? = some a)
     (hb : h[n + 1]? = some b) (Sa : Sm h c0 n a) {k : Nat} {stk stk' : NState}
     (hk : a.node k = some stk) (hs : Stp a b k stk stk') {v : Nat} (hvk : v ≠ k) {st : NState}
     (hva : a.node v = some st) :
@@ -68,20 +68,20 @@ structure AppSrc (h : List Sys) (c0 n : Nat) (m : Message) (L : LLog) (cL : Nat)
   cov : Covered h c0 n cL m.term L
   tnz : m.term ≠ 0
 
-theorem app_src (H : Hyp3 cfg c0 h) {n : Nat} (S : SAll h c0 n) {a : Sys} (ha : h[n]? = some a)
+theorem app_src (H : Hyp3a cfg c0 h) {n : Nat} (S : SAll h c0 n) {a : Sys} (ha : h[n]? = some a)
     {m : Message} (hm : m ∈ a.net) (hty : m.msgType = .msgAppend) :
     ∃ L cL, AppSrc h c0 n m L cL := by
   obtain ⟨i, n0, hn0, s1, st, h1, h2, h3, h4, h5, h6, h7, h8⟩ :=
-    (append_prov H.toHyp2 n a ha).2 m hm hty
-  have o := node_ok H.toHyp2 h1 h2
-  have I := (ghost_inv H.toHyp2 n0 s1 h1).node i st h2
+    (append_prov H.toHyp2w n a ha).2 m hm hty
+  have o := node_ok H.toHyp2w h1 h2
+  have I := (ghost_inv H.toHyp2w n0 s1 h1).node i st h2
   have hents := subw_entries h8
   have hanchor : st.raft.raftLog.abs.term m.index = .ok m.logTerm := by
     rw [← o.inv.term_abs]; exact h7
   refine ⟨FL h c0 st, st.raft.raftLog.committed,
     ⟨n0, s1, i, st, hn0, h1, h2, h3, h4, rfl⟩, I.log.snap, fun e he => I.log.entry (hents e he), h8.1,
     fun hz hi => I.log.entry_of_term hanchor hz hi, ?_, h6, ?_, ?_,
-    append_term_ne_zero H.toHyp2 ha hm hty⟩
+    append_term_ne_zero H.toHyp2w ha hm hty⟩
   · -- the batch ends inside the sender's log
     rw [I.log.last]
     by_cases hE : m.entries = []
@@ -108,18 +108,18 @@ theorem app_src (H : Hyp3 cfg c0 h) {n : Nat} (S : SAll h c0 n) {a : Sys} (ha : 
 
 /-- **the anchor of an accepted batch**: a log that matches the anchor of a `MsgAppend` equals the
 sender's log up to the anchor -/
-theorem anchor_eq (H : Hyp3 cfg c0 h) {n : Nat} {a : Sys} (ha : h[n]? = some a) {v : Nat}
+theorem anchor_eq (H : Hyp3a cfg c0 h) {n : Nat} {a : Sys} (ha : h[n]? = some a) {v : Nat}
     {st : NState} (hv : a.node v = some st) {m : Message} (hm : m ∈ a.net)
     (hty : m.msgType = .msgAppend) {N : Nat} {L : LLog} {cL : Nat} (src : AppSrc h c0 N m L cL)
     (hmt : st.raft.raftLog.abs.matchTerm m.index m.logTerm = true) :
     EqUpTo (FL h c0 st) L m.index := by
-  have I := (ghost_inv H.toHyp2 n a ha).node v st hv
+  have I := (ghost_inv H.toHyp2w n a ha).node v st hv
   by_cases hle : m.index ≤ c0
   · intro k hk
     unfold LLog.entryAt
     rw [if_pos (by rw [I.log.snap]; omega), if_pos (by rw [src.snap]; omega)]
   · rcases H.anch a (mem_of_get ha) m hm hty with c | c
-    · exact eq_ll H.toHyp2 ha hv src.ll (I.log.has_of_match hmt c (by omega))
+    · exact eq_ll H.toHyp2w ha hv src.ll (I.log.has_of_match hmt c (by omega))
         (src.anchor c (by omega))
     · exact absurd c hle
 
@@ -132,15 +132,15 @@ structure HbSrc (h : List Sys) (c0 n : Nat) (net : List Message) (m : Message) (
   cov : Covered h c0 n cL m.term L
   ack : m.commit = 0 ∨ ∃ x ∈ net, isAck x ∧ x.frm = m.to ∧ x.term = m.term ∧ m.commit ≤ x.index
 
-theorem hb_src (H : Hyp3 cfg c0 h) {n : Nat} (S : SAll h c0 n) {a : Sys} (ha : h[n]? = some a)
+theorem hb_src (H : Hyp3a cfg c0 h) {n : Nat} (S : SAll h c0 n) {a : Sys} (ha : h[n]? = some a)
     {m : Message} (hm : m ∈ a.net) (hty : m.msgType = .msgHeartbeat) :
     ∃ L cL, HbSrc h c0 n a.net m L cL := by
   obtain ⟨i, n0, hn0, s1, st, h1, h2, h3, h4, h5, h6, h7⟩ :=
-    (hb_prov H.toHyp2 n a ha).2 m hm hty
-  have o := node_ok H.toHyp2 h1 h2
+    (hb_prov H.toHyp2w n a ha).2 m hm hty
+  have o := node_ok H.toHyp2w h1 h2
   refine ⟨FL h c0 st, st.raft.raftLog.committed,
     ⟨n0, s1, i, st, hn0, h1, h2, h3, h4, rfl⟩, h6, ?_, ?_, ?_⟩
-  · rw [fl_last H.toHyp2 h1 h2, ← o.inv.lastIndex_abs]; exact o.inv.committed_le_last
+  · rw [fl_last H.toHyp2w h1 h2, ← o.inv.lastIndex_abs]; exact o.inv.committed_le_last
   · exact ((S n0 s1 hn0 h1).nctm i st h2).mono hn0 (Nat.le_of_eq h4)
   · rcases h7 with c | ⟨x, hx, hack, hfrm, hterm, hidx⟩
     · exact .inl c
@@ -150,13 +150,13 @@ theorem hb_src (H : Hyp3 cfg c0 h) {n : Nat} (S : SAll h c0 n) {a : Sys} (ha : h
         have hmono := (hist_all H.hist).2.2 n0 n s1 a hn0 h1 ha
         have hxa : x ∈ a.net := steps_net hmono x hx
         have hx0 : x.index ≠ 0 := by omega
-        have := ((ack_inv H.toHyp2 n0 s1 h1).2 x hx hack hx0).2
+        have := ((ack_inv H.toHyp2w n0 s1 h1).2 x hx hack hx0).2
         rcases hterm with d | d
         · exact ⟨x, hxa, hack, hfrm, d, hidx⟩
         · exact absurd d this
 
 /-- **provenance of the (pre-)vote messages** -/
-theorem vote_prov (H : Hyp2 cfg c0 h) : ∀ (n : Nat) (s : Sys), h[n]? = some s →
+theorem vote_prov (H : Hyp2w cfg c0 h) : ∀ (n : Nat) (s : Sys), h[n]? = some s →
     (∀ i st, s.node i = some st → ∀ x ∈ st.raft.msgs, isVoteMsg x.msgType = true →
       Gen (VoteGen h) n i x) ∧
     (∀ x ∈ s.net, isVoteMsg x.msgType = true → ∃ i, Gen (VoteGen h) n i x) := by
@@ -172,7 +172,7 @@ theorem vote_prov (H : Hyp2 cfg c0 h) : ∀ (n : Nat) (s : Sys), h[n]? = some s 
 entry of that term there, its commit index was at least that — and was covered by a past commit
 event —, and the message's term is the sender's term then (plus one for a pre-vote request; a response
 that carries a commit point is a rejection) -/
-theorem vote_src (H : Hyp2 cfg c0 h) {n : Nat} (S : SAll h c0 n) {a : Sys} (ha : h[n]? = some a)
+theorem vote_src (H : Hyp2w cfg c0 h) {n : Nat} (S : SAll h c0 n) {a : Sys} (ha : h[n]? = some a)
     {m : Message} (hm : m ∈ a.net) (hty : isVoteMsg m.msgType = true) :
     m.commit = 0 ∨ ∃ (n0 : Nat) (s0 : Sys) (w : Nat) (stw : NState), n0 ≤ n ∧ h[n0]? = some s0 ∧
       s0.node w = some stw ∧ m.commit ≤ stw.raft.raftLog.committed ∧
@@ -189,7 +189,7 @@ theorem vote_src (H : Hyp2 cfg c0 h) {n : Nat} (S : SAll h c0 n) {a : Sys} (ha :
 /-- **a freshly queued acknowledgement, completely**: it answers a `MsgAppend` of the transport of the
 node's (new) term; either the batch was accepted and the response acknowledges its end, or the log is
 untouched and the response acknowledges the commit index -/
-theorem fresh_ack2 (H : Hyp2 cfg c0 h) {n : Nat} {a b : Sys} (ha : h[n]? = some a)
+theorem fresh_ack2 (H : Hyp2w cfg c0 h) {n : Nat} {a b : Sys} (ha : h[n]? = some a)
     (hb : h[n + 1]? = some b) {k : Nat}
     {st st' : NState} {rnd : Option Nat} {op : NodeOp} {res : OpRes} (h1 : a.node k = some st)
     (hkb : b.node k = some st')
@@ -270,10 +270,10 @@ structure SnapSrc (h : List Sys) (c0 n : Nat) (m : Message) (L : LLog) : Prop wh
   cov : Covered h c0 n m.snapshot.metadata.index m.term L
   tnz : m.term ≠ 0
 
-theorem snap_src (H : Hyp3 cfg c0 h) {n : Nat} (S : SAll h c0 n) {a : Sys} (ha : h[n]? = some a)
+theorem snap_src (H : Hyp3a cfg c0 h) {n : Nat} (S : SAll h c0 n) {a : Sys} (ha : h[n]? = some a)
     {m : Message} (hm : m ∈ a.net) (hty : m.msgType = .msgSnapshot) :
     ∃ L, SnapSrc h c0 n m L := by
-  have H2 := H.toHyp2
+  have H2 := H.toHyp2w
   obtain ⟨i, n1, hn1, n0, a0, b0, st, st', e1, ha0, hb0, hi, hi', hlead, hterm, _, htle, hsn, hpn⟩ :=
     (snap_prov H2 n a ha).2 m hm hty
   subst e1
